@@ -101,6 +101,9 @@ func cmdFn(repo string, args []string) int {
 	bad := 0
 	for _, o := range vc.obls {
 		fmt.Printf("%-11s %-8s %6.2fs %s  [%s]\n", o.Status, o.Solver, o.Time, o.Name, o.Pos)
+		if d := os.Getenv("GOVC_DUMP"); d != "" && strings.HasSuffix(o.Name, d) {
+			fmt.Println("GOAL:", termPreview(o.Goal, 30000))
+		}
 		if o.Status != "discharged" {
 			bad++
 			fmt.Println("   ", strings.ReplaceAll(o.Output, "\n", "\n    "))
